@@ -277,6 +277,7 @@ func (r *R) sctBytesRoundTrip(cs *Case, fn string, b []byte, v sctVal, tag strin
 	if !r.guard(cs, "ct.DeserializeSCT", func() { v2, derr = apis["ct"].deserSCT(rd) }) {
 		return true
 	}
+	r.readerMenu(cs, "ct.DeserializeSCT", b, func(rd io.Reader) (string, error) { v, err := apis["ct"].deserSCT(rd); return sctKey(v), err })
 	switch {
 	case derr != nil:
 		r.viol(fn+": no error, but DeserializeSCT rejects the bytes ["+tag+"]", cs, derr.Error())
@@ -334,6 +335,10 @@ func (r *R) dsRT(cs *Case) {
 	r.calls++
 	if !r.guard(cs, a.name+".UnmarshalDigitallySigned", func() { v2, derr = a.unmarshal(rd) }) {
 		return
+	}
+	if jsonIDs[v.Hash] && jsonIDs[v.Alg] {
+		// reader behaviours: the 12 x 12 boundary ids x every signature length (the ids are single bytes read alike)
+		r.readerMenu(cs, a.name+".UnmarshalDigitallySigned", b, func(rd io.Reader) (string, error) { v, err := a.unmarshal(rd); return dsKey(v), err })
 	}
 	switch {
 	case derr != nil:
@@ -393,6 +398,7 @@ func (r *R) checkSCTDecode(cs *Case, a *api, b []byte, what string) {
 	if !r.guard(cs, fn, func() { got, err = a.deserSCT(rd) }) {
 		return
 	}
+	r.readerMenu(cs, fn, b, func(rd io.Reader) (string, error) { v, err := a.deserSCT(rd); return sctKey(v), err })
 	if st == stBad {
 		if err == nil {
 			r.viol(fn+": accepts bytes that are not the serialisation of any value ("+why+")", cs, fmt.Sprintf("decoded version=%d ext=%d sig=%d bytes", got.Ver, len(got.Ext), len(got.Sig)))
@@ -430,6 +436,7 @@ func (r *R) dsBytes(cs *Case) {
 	if !r.guard(cs, fn, func() { got, err = a.unmarshal(rd) }) {
 		return
 	}
+	r.readerMenu(cs, fn, cs.Bytes, func(rd io.Reader) (string, error) { v, err := a.unmarshal(rd); return dsKey(v), err })
 	if st == stBad {
 		if err == nil {
 			r.viol(fn+": accepts bytes that are not the serialisation of any value ("+why+")", cs, fmt.Sprintf("decoded sig=%d bytes", len(got.Sig)))
@@ -460,6 +467,21 @@ func (r *R) leafBytes(cs *Case) {
 	r.calls++
 	if !r.guard(cs, fn, func() { leaf, err = ct.ReadMerkleTreeLeaf(rd) }) {
 		return
+	}
+	r.readerMenu(cs, fn, cs.Bytes, func(rd io.Reader) (string, error) {
+		l, err := ct.ReadMerkleTreeLeaf(rd)
+		if err != nil || l == nil {
+			return "", orNilErr(err)
+		}
+		return digest([]byte{byte(l.Version), byte(l.LeafType)}, []byte(teKey(&l.TimestampedEntry))), nil
+	})
+	if len(cs.Bytes) >= 2 {
+		// the TimestampedEntry inside the leaf, through its own entry point
+		r.readerMenu(cs, "ct.ReadTimestampedEntryInto", cs.Bytes[2:], func(rd io.Reader) (string, error) {
+			var t ct.TimestampedEntry
+			err := ct.ReadTimestampedEntryInto(rd, &t)
+			return teKey(&t), err
+		})
 	}
 	if err == nil && leaf == nil {
 		r.viol(fn+": nil leaf without error", cs, "")
